@@ -1,9 +1,11 @@
 (* K13/K1 -- model of pattern_matching.subn / sub, processing.find_replace (the part after the
    matcher: range + instantiated replacement, yield order, count limiting), core.format_template
    (textual filling of {{x}}), textwrap.dedent / indent as used there, core.has_ignore_comment
-   (the regex and the line scan) and the Range/str branch of processing._do_rewrite.
-   Mirrors the code as it is after the two `fix:` commits recorded in KNOWN_FINDINGS.txt
-   (single-pass wildcard filling; continuation lines indented like the line the match starts on).
+   (= IgnoreModel.has_ignore: physical lines of core.split_lines, the regex, the tokenizer's verdict as an
+   input), processing._apply_rewrites (refusal of whitespace-only transactions and of no-op members, both
+   decided on the ORIGINAL source) and the Range/str branch of processing._do_rewrite(scheduled=True).
+   Mirrors the code as it is on the merged tree (after 287b37c 4047a08 7322cc1 8085be6 a37c022 8992e08 776bcb9
+   9c4cf3b bb9c8e5 and the C14 repairs recorded in KNOWN_FINDINGS.txt).
    The matcher itself (core.walk_wildcard / walk_sequence) is property C12: the list of matches, in
    yield order, is an INPUT of this model.  Text = list of code points (list Z); the domain is
    "\n"-separated text without tabs or other line separators (checked by the harness on every case).
@@ -12,6 +14,7 @@ From Coq Require Import List ZArith Bool.
 From Coq Require String Ascii.
 Import ListNotations.
 Require Import Pyrefact.SchedModel.
+Require Pyrefact.IgnoreModel Pyrefact.SchedApplyModel.
 Open Scope Z_scope.
 
 Definition text := list Z.
@@ -96,42 +99,27 @@ Fixpoint count_leading_sp (s : text) : nat :=
 Fixpoint spaces (n : nat) : text := match n with O => [] | S k => SP :: spaces k end.
 
 (* ------------------------------------------------------------------------------------------ *)
-(* core.has_ignore_comment:  re.compile(r"#\s*pyrefact\s*:\s*(skip_file|ignore)").search(line)
-   for every line (splitlines(keepends=True)) whose character range overlaps the rewrite range *)
+(* core.has_ignore_comment (after a37c022 / 8992e08 / 776bcb9) is IgnoreModel.has_ignore (property C20): per
+   physical line of core.split_lines (\n, \r\n, \r only) the regex  #\s*pyrefact\s*:\s*(skip_file|ignore),
+   confirmed by a COMMENT token of the tokenizer on that line.  The tokenizer's verdict [coms] (zero-based
+   numbers of the lines with such a comment token; None = the source cannot be tokenized, then the textual
+   test decides) is an INPUT of the model, computed by the harness with CPython's tokenizer. *)
+Definition to_n (s : text) : IgnoreModel.text := map Z.to_N s.
 
-Definition str_pyrefact : text := [112; 121; 114; 101; 102; 97; 99; 116].
-Definition str_skip_file : text := [115; 107; 105; 112; 95; 102; 105; 108; 101].
-Definition str_ignore : text := [105; 103; 110; 111; 114; 101].
-
-(* the regex anchored just after a '#': \s* is greedy and the next literal is not a space, so no
-   backtracking is ever useful *)
-Definition ignore_after_hash (s : text) : bool :=
-  let s1 := lstrip s in
-  if starts_with str_pyrefact s1 then
-    match lstrip (skipn 8 s1) with
-    | c :: s2 => if c =? 58 then
-                   let s3 := lstrip s2 in starts_with str_skip_file s3 || starts_with str_ignore s3
-                 else false
-    | [] => false
-    end
-  else false.
-
-Fixpoint has_ignore (line : text) : bool :=
-  match line with
-  | [] => false
-  | c :: tl => ((c =? 35) && ignore_after_hash tl) || has_ignore tl
-  end.
-
-Fixpoint ignore_lines_from (pos : Z) (ls : list text) : list range :=
-  match ls with
-  | [] => []
-  | l :: tl =>
-      let e := pos + Z.of_nat (length l) in
-      if has_ignore l then (pos, e) :: ignore_lines_from e tl else ignore_lines_from e tl
-  end.
+Definition ignore_entries (src : text) (coms : option (list nat)) : list (range * IgnoreModel.text) :=
+  IgnoreModel.ignore_entries (to_n src) coms.
 
 (* the character ranges of the physical lines that carry an ignore comment *)
-Definition ignore_lines (src : text) : list range := ignore_lines_from 0 (lines_ke src).
+Definition ignore_lines (src : text) (coms : option (list nat)) : list range :=
+  map fst (ignore_entries src coms).
+
+(* the same lines as SchedModel.ignored / touches_line expects them: an unterminated (last) line is handed
+   over with its end moved one past the text, so that an insertion at the very end of the text touches it *)
+Definition sched_line (e : range * IgnoreModel.text) : range :=
+  (fst (fst e), if IgnoreModel.terminated (snd e) then snd (fst e) else snd (fst e) + 1).
+
+Definition sched_ilines (src : text) (coms : option (list nat)) : list range :=
+  map sched_line (ignore_entries src coms).
 
 (* ------------------------------------------------------------------------------------------ *)
 (* core.format_template (repaired): one pass of re.sub(r"\{\{(\w+)\}\}", fill, source);
@@ -313,15 +301,16 @@ Fixpoint greedy (seen acc : list (range * T)) (items : list (range * T)) : list 
 End Subn.
 
 (* ------------------------------------------------------------------------------------------ *)
-(* processing._do_rewrite, branch  old : Range, new : str *)
+(* processing._apply_rewrites and processing._do_rewrite(scheduled=True), branch  old : Range, new : str *)
 Section DoRewrite.
-Variable valid : text -> bool.      (* core.is_valid_python *)
+Variable valid : text -> bool.           (* core.is_valid_python *)
+Variable equiv : text -> text -> bool.   (* processing._sources_equivalent (same tree): a parser question, input *)
 
 Definition str_pass : text := [112; 97; 115; 115].
 
 Definition splice_t (src : text) (r : range) (n : text) : text := splice Z src r n.
 
-(* [line.rstrip() for line in code.splitlines() if line.strip()] *)
+(* processing._significant_lines:  [line.rstrip() for line in core.split_lines(code) if line.strip()] *)
 Definition sig_lines (s : text) : list text := map rstrip (filter nonblank (lines_nk s)).
 
 Fixpoint texts_eqb (a b : list text) : bool :=
@@ -331,9 +320,8 @@ Fixpoint texts_eqb (a b : list text) : bool :=
   | _, _ => false
   end.
 
-(* the "prevent whitespace-only changes" guard: the rewrite is skipped iff the replacement and the
-   code it replaces have the same non-blank lines after rstrip() -- LEADING whitespace (block structure)
-   is compared *)
+(* the replacement and the code it replaces have the same non-blank lines after rstrip() -- LEADING
+   whitespace (block structure) is compared *)
 Definition ws_only_change (n code : text) : bool := texts_eqb (sig_lines n) (sig_lines code).
 
 Definition extra_indented (extra : nat) (n : text) : text :=
@@ -355,17 +343,46 @@ Fixpoint first_valid (src : text) (r : range) (n : text) (extras : list nat) (df
 Variable wrap : range -> bool.
 Variable mlstr : text -> bool.
 
+(* processing._same_significant_lines(code, new_code): a difference in blank lines and trailing blanks only --
+   never when a line of either text begins inside a string literal *)
+Definition same_significant (code n : text) : bool :=
+  ws_only_change n code && negb (mlstr code || mlstr n).
+
 Definition wrapped (r : range) (n : text) : text :=
   if wrap r && nonblank n then 40 :: n ++ [41] else n.
 
+Definition char_is (src : text) (i : nat) (c : Z) : bool :=
+  match nth_error src i with Some d => d =? c | None => false end.
+
+Definition ends_with (c : Z) (n : text) : bool :=
+  match rev n with d :: _ => d =? c | [] => false end.
+
+(* processing._pad_braces (8085be6): a replacement that begins (ends) with a brace directly after (before) a
+   brace of the source -- the replacement field of an f-string -- is padded with blanks when that parses and the
+   unpadded text does not, or means something else ("{{" is an escaped brace) *)
+Definition pad_braces (src : text) (r : range) (n : text) : text :=
+  let s := Z.to_nat (fst r) in
+  let e := Z.to_nat (snd r) in
+  if (match n with c :: _ => c =? 123 | [] => false end
+      && match s with O => false | S k => char_is src k 123 end)
+     || (ends_with 125 n && char_is src e 125)
+  then
+    let padded_n := SP :: n ++ [SP] in
+    let cand := splice_t src r n in
+    let padded := splice_t src r padded_n in
+    if valid padded && negb (valid cand && equiv cand padded) then padded_n else n
+  else n.
+
+(* _do_rewrite(source, rewrite, scheduled=True): the ignore-comment test and the whitespace-only test are the
+   caller's (decided per transaction on the original source); what is left is the equal-text test on the
+   CURRENT text, the generator parentheses, the brace padding, the "pass" candidate for an empty replacement
+   and the first valid extra indent of 0, 4, 8, 12 *)
 Definition do_rewrite (src : text) (rw : range * text) : text :=
   let '(r, n0) := rw in
   let code := slice src r in
   if text_eqb n0 code then src
-  else if ignored (ignore_lines src) r then src
-  else if ws_only_change n0 code && negb (mlstr code || mlstr n0) then src
   else
-    let n := wrapped r n0 in
+    let n := pad_braces src r (wrapped r n0) in
     let cand := splice_t src r n in
     let nonempty := match n with [] => false | _ => true end in
     let choice :=
@@ -379,10 +396,27 @@ Definition do_rewrite (src : text) (rw : range * text) : text :=
 
 Definition do_all (src : text) (rws : list (range * text)) : text := fold_left do_rewrite rws src.
 
-(* the texts _do_rewrite may splice in for a replacement n *)
+(* the texts _do_rewrite may splice in for a replacement n (after parentheses / padding) *)
 Definition candidates (n : text) : list text :=
   n :: match n with [] => [str_pass] | _ => [] end
     ++ map (fun x => extra_indented x n) [0; 4; 8; 12]%nat.
+
+(* ---- _apply_rewrites ---- *)
+Definition entry := (tkey * rewrite text)%type.
+
+(* processing._is_whitespace_only_change(source, rng, rewrite), on the ORIGINAL source *)
+Definition ws_refused (src : text) (e : entry) : bool :=
+  let code := slice src (rrng (snd e)) in
+  negb (text_eqb (rnew (snd e)) code) && same_significant code (rnew (snd e)).
+
+(* a member whose replacement text equals the original text of its range is skipped *)
+Definition noop (src : text) (e : entry) : bool :=
+  text_eqb (rnew (snd e)) (slice src (rrng (snd e))).
+
+(* the scheduled rewrites that reach _do_rewrite: those of transactions without a whitespace-only member
+   (SchedApplyModel.surviving: refusal per transaction), minus the no-op members *)
+Definition applicable (src : text) (sched : list entry) : list entry :=
+  filter (fun e => negb (noop src e)) (SchedApplyModel.surviving text (ws_refused src) sched).
 
 End DoRewrite.
 
@@ -392,18 +426,20 @@ End DoRewrite.
 Definition sched_pairs (l : list (tkey * rewrite text)) : list (range * text) :=
   map (fun e => (rrng (snd e), rnew (snd e))) l.
 
-Definition subn_sched_text (src : text) (items : list (range * text)) : list (tkey * rewrite text) :=
-  subn_schedule text text_eqb text_cmp (ignore_lines src) items.
+Definition subn_sched_text (src : text) (coms : option (list nat)) (items : list (range * text))
+  : list (tkey * rewrite text) :=
+  subn_schedule text text_eqb text_cmp (sched_ilines src coms) items.
 
-Definition subn_candidate (valid : text -> bool) (wrap : range -> bool) (mlstr : text -> bool)
-           (src : text) (items : list (range * text)) : text :=
-  do_all valid wrap mlstr src (sched_pairs (subn_sched_text src items)).
+Definition subn_candidate (valid : text -> bool) (equiv : text -> text -> bool) (wrap : range -> bool)
+           (mlstr : text -> bool) (src : text) (coms : option (list nat)) (items : list (range * text)) : text :=
+  do_all valid equiv wrap src (sched_pairs (applicable mlstr src (subn_sched_text src coms items))).
 
 (* _apply_rewrites: roll back to the source when the candidate does not parse (restore = the
    _substitute_original_(f)strings step, an abstract function as in SchedModel.apply_rewrites) *)
-Definition subn_output (valid : text -> bool) (wrap : range -> bool) (mlstr : text -> bool)
-           (restore : text -> text -> text) (src : text) (items : list (range * text)) : text :=
-  let c := subn_candidate valid wrap mlstr src items in
+Definition subn_output (valid : text -> bool) (equiv : text -> text -> bool) (wrap : range -> bool)
+           (mlstr : text -> bool) (restore : text -> text -> text) (src : text) (coms : option (list nat))
+           (items : list (range * text)) : text :=
+  let c := subn_candidate valid equiv wrap mlstr src coms items in
   if negb (valid c) then src
   else let c' := restore src c in if negb (valid c') then src else c'.
 
@@ -419,15 +455,25 @@ Fixpoint valid_table (dflt : bool) (tbl : list (text * bool)) (t : text) : bool 
   | (k, v) :: tl => if text_eqb k t then v else valid_table dflt tl t
   end.
 
+Fixpoint equiv_table (dflt : bool) (tbl : list (text * text * bool)) (a b : text) : bool :=
+  match tbl with
+  | [] => dflt
+  | (k1, k2, v) :: tl => if text_eqb k1 a && text_eqb k2 b then v else equiv_table dflt tl a b
+  end.
+
 Record subn_case := mkSubn {
   sc_src : text;
   sc_tmpl : text;
   sc_count : Z;
   sc_matches : list smatch;             (* all matches of the pattern, in the matcher's yield order *)
   sc_valid : list (text * bool);        (* answers of core.is_valid_python observed during the run *)
+  sc_equiv : list (text * text * bool); (* answers of processing._sources_equivalent observed during the run *)
   sc_wraps : list range;                (* ranges whose replacement gets the call's parentheses back *)
   sc_mlstr : list text;                 (* texts with a line that begins inside a string literal *)
-  sc_ilines : list range;               (* lines carrying an ignore comment (harness-side regex) *)
+  sc_coms : option (list nat);          (* CPython's tokenizer: lines with an ignore COMMENT token *)
+  sc_ilines : list range;               (* physical lines for which core.has_ignore_comment answers True *)
+  sc_probes : list (range * bool);      (* core.has_ignore_comment on probe ranges: first / last character of
+                                           every physical line, insertion points at its first column and at its end *)
   sc_items : option (list (range * text));  (* what find_replace yielded inside subn; None = ValueError *)
   sc_sched : list flat_entry;           (* what _schedule_rewrites returned *)
   sc_cand : text;                       (* text after the chain of _do_rewrite calls *)
@@ -452,15 +498,15 @@ Definition model_items (c : subn_case) := subn_items (sc_src c) (sc_tmpl c) (sc_
 
 Definition model_sched (c : subn_case) : list flat_entry :=
   match model_items c with
-  | Some its => flatten (subn_sched_text (sc_src c) its)
+  | Some its => flatten (subn_sched_text (sc_src c) (sc_coms c) its)
   | None => []
   end.
 
 Definition model_cand_d (dflt : bool) (c : subn_case) : text :=
   match model_items c with
-  | Some its => subn_candidate (valid_table dflt (sc_valid c))
+  | Some its => subn_candidate (valid_table dflt (sc_valid c)) (equiv_table dflt (sc_equiv c))
                                (fun r => existsb (range_eqb r) (sc_wraps c))
-                               (fun t => existsb (text_eqb t) (sc_mlstr c)) (sc_src c) its
+                               (fun t => existsb (text_eqb t) (sc_mlstr c)) (sc_src c) (sc_coms c) its
   | None => sc_src c
   end.
 Definition model_cand (c : subn_case) : text := model_cand_d false c.
@@ -471,7 +517,9 @@ Definition model_n (c : subn_case) : Z :=
 (* result code: 0 = agreement; otherwise the first component that differs (6 = the text depends on a
    validity answer the implementation never produced) *)
 Definition subn_case_code (c : subn_case) : nat :=
-  if negb (ranges_eqb (ignore_lines (sc_src c)) (sc_ilines c)) then 1%nat
+  if negb (ranges_eqb (ignore_lines (sc_src c) (sc_coms c)) (sc_ilines c))
+     || negb (forallb (fun p => Bool.eqb (ignored (sched_ilines (sc_src c) (sc_coms c)) (fst p)) (snd p))
+                      (sc_probes c)) then 1%nat
   else match model_items c, sc_items c with
        | None, None => 0%nat
        | Some a, Some b =>
@@ -486,12 +534,11 @@ Definition subn_case_code (c : subn_case) : nat :=
 
 Definition subn_case_ok (c : subn_case) : bool := Nat.eqb (subn_case_code c) 0.
 
-(* text-function cases (format_template / dedent / indent / has_ignore_comment on their own) *)
+(* text-function cases (format_template / dedent / indent on their own) *)
 Inductive fn_case :=
 | FFormat (tmpl : text) (binds : list (text * text)) (expected : option text)
 | FDedent (s : text) (expected : text)
-| FIndent (n : nat) (s : text) (expected : text)
-| FIgnore (s : text) (expected : list range).
+| FIndent (n : nat) (s : text) (expected : text).
 
 Definition opt_text_eqb (a b : option text) : bool :=
   match a, b with
@@ -505,5 +552,4 @@ Definition fn_case_ok (c : fn_case) : bool :=
   | FFormat t b e => opt_text_eqb (format_template t b) e
   | FDedent s e => text_eqb (dedent s) e
   | FIndent n s e => text_eqb (indent n s) e
-  | FIgnore s e => ranges_eqb (ignore_lines s) e
   end.
